@@ -172,7 +172,13 @@ func c20Case(c *ctx, fs []sfieldSpec, byValue bool, how string) {
 		} else if w3.Get("id") != "x" {
 			fail("accepted-struct-id-not-stored", fmt.Sprint(w3.Get("id")))
 		}
-		wobs = oC("ok", oStruct(w), oL(gets), oL(sets), idobs)
+		// Copy of the (zero-valued) instance: outcome and what the copy reads
+		cobs := ""
+		if p, pv := guard(func() { cobs = oOk(oStruct(w.Copy())) }); p {
+			cobs = oPanic()
+			fail("accepted-struct-copy-panics", fmt.Sprint(pv))
+		}
+		wobs = oC("ok", oStruct(w), oL(gets), oL(sets), idobs, cobs)
 		// copies, new instances, marshaling
 		if p, pv := guard(func() {
 			_ = w.Copy()
@@ -290,7 +296,76 @@ func c20ID(r *rng) sfieldSpec {
 	return f
 }
 
+// wcopyCase: a struct-backed resource after a Set history, then Copy: the
+// outcome and everything the copy reads, against Model/WrapCopy.v.
+func wcopyCase(c *ctx, t typeSpec, ops []setOp, how string) {
+	fields := append([]string{"id"}, t.fieldNames()...)
+	var gops, descs []string
+	for _, o := range ops {
+		gops = append(gops, gPair(gStr(o.key), gValue(o.val)))
+		descs = append(descs, fmt.Sprintf("Set(%q, %s)", o.key, descValue(o.val)))
+	}
+	var key, detail string
+	obs := ""
+	var w *jsonapi.Wrapper
+	if p, _ := guard(func() {
+		w = t.newWrapped()
+		for _, o := range ops {
+			w.Set(o.key, o.val)
+		}
+	}); p {
+		obs = oPanic()
+	} else {
+		var cp jsonapi.Resource
+		if p, pv := guard(func() { cp = w.Copy() }); p {
+			obs = oC("ok", oPanic())
+			key, detail = "accepted-struct-copy-panics", fmt.Sprint(pv)
+		} else {
+			obs = oC("ok", oOk(oL([]string{oStruct(cp), dumpRes(cp, fields)})))
+			for _, f := range fields {
+				if !sameValue(cp.Get(f), w.Get(f)) {
+					key, detail = "copy-reads-another-value", fmt.Sprintf("%s: %s vs %s", f, descValue(cp.Get(f)), descValue(w.Get(f)))
+				}
+			}
+		}
+		if p, pv := guard(func() { _ = w.New() }); p && key == "" {
+			key, detail = "accepted-struct-new-panics", fmt.Sprint(pv)
+		}
+	}
+	desc := fmt.Sprintf("type %s fields %v: %s; Copy", t.name, t.fieldNames(), strings.Join(descs, "; "))
+	k := c.add("wcopy", desc, fmt.Sprintf("fields=%d ops=%d", len(t.fields), min(len(ops), 12)), false,
+		fmt.Sprintf("(run_wcopy %s %s %s)", t.gDesc(), gList(gops), gStrs(fields)), obs, key, detail)
+	k.Replay = how
+}
+
+func runWCopies(c *ctx) {
+	all := allKindsSpec("alltypes", "other")
+	for _, f := range all.fields {
+		if f.rel {
+			continue
+		}
+		for _, v := range dictValues(f.code) {
+			if f.nullable {
+				v = ptrTo(v)
+			}
+			wcopyCase(c, all, []setOp{{f.name, v}}, "dictionary "+f.name)
+		}
+	}
+	n := 60
+	if c.thorough() {
+		n = 1500
+	}
+	for i := 0; i < n; i++ {
+		t := all
+		if c.r.chance(2, 3) {
+			t = randTypeSpec(c.r, pick(c.r, []string{"t", "users", "a-b"}), 8, []string{"t", "other"})
+		}
+		wcopyCase(c, t, randSetOps(c.r, t, c.r.intn(20)), "random")
+	}
+}
+
 func runC20(c *ctx) {
+	runWCopies(c)
 	goodID := sfieldSpec{name: "ID", typ: reflect.TypeOf(""), hasJSON: true, jsonTag: "id", hasAPI: true, apiTag: "things"}
 	// single-field variations, exhaustively: every type x every api tag x json tag forms
 	for _, t := range c20Types {
@@ -361,5 +436,5 @@ func runC20(c *ctx) {
 }
 
 func init() {
-	register("C20", []string{"Model.GoTime", "Gen.TypeGo", "Model.Schema", "Model.Value", "Model.SoftRes", "Model.Wrapper", "Model.Resource", "Model.C14", "Model.C17", "Model.C20"}, runC20)
+	register("C20", []string{"Model.GoTime", "Gen.TypeGo", "Model.Schema", "Model.Value", "Model.SoftRes", "Model.Wrapper", "Model.Resource", "Model.WrapCopy", "Model.C14", "Model.C17", "Model.C20"}, runC20)
 }
